@@ -23,10 +23,24 @@ limitations under the License.
 class RangeLock
 {
 public:
+    // An empty range (length == 0) covers no byte: it conflicts with nothing
+    // and is never stored in the index. (range_t::operator< is not a strict
+    // weak ordering for empty keys: an empty entry sorts before every key
+    // lower_bound() is asked for, so unlock(offset, 0) could never find it
+    // again, identical empty entries are each "less" than the other, and an
+    // entry emptied or moved in place breaks the order of the index.)
+    // Handle-based calls get the end() iterator as the token for "nothing held".
+    // (A range starting at 2^64-1 is empty as well: its end saturates there.)
+    static bool is_empty(uint64_t offset, uint64_t length)
+    {
+        return photon::sat_add(offset, length) == offset;
+    }
+
     // return 0 if successfully locked;
     // otherwise, wait and return -1 and the conflicted range
     int try_lock_wait(uint64_t& offset, uint64_t& length)
     {
+        if (is_empty(offset, length)) return 0;
         range_t r(offset, length);
         SCOPED_LOCK(m_lock);
         auto it = m_index.lower_bound(r);
@@ -43,6 +57,7 @@ public:
 
     void unlock(uint64_t offset, uint64_t length)
     {
+        if (is_empty(offset, length)) return;
         range_t r(offset, length);
         SCOPED_LOCK(m_lock);
         auto it = m_index.lower_bound(r);
@@ -62,6 +77,10 @@ public:
     {
         range_t r(offset, length);
         SCOPED_LOCK(m_lock);
+        if (is_empty(offset, length)) {
+            auto end = m_index.end();
+            return __reinterpret_cast<LockHandle*>(end);
+        }
         auto it = m_index.lower_bound(r);
         if (it != m_index.end() && it->offset < r.end()) {
             it->cond.wait(m_lock);
@@ -85,10 +104,11 @@ public:
 
     int adjust_range(LockHandle* h, uint64_t offset, uint64_t length)
     {
-        if (!h) return -1;
+        if (!h || is_empty(offset, length)) return -1;
         range_t r1(offset, length);
         SCOPED_LOCK(m_lock);
         auto it = __reinterpret_cast<iterator>(h);
+        if (it == m_index.end()) return -1;     // the handle of an empty range
         auto r0 = (range_t*) &*it;
         if ((r1.offset < r0->offset && r1.offset < prev_end(it)) ||
             (r1.end()  > it->end()  && r1.end()  > next_offset(it)))
@@ -102,6 +122,7 @@ public:
     {
         SCOPED_LOCK(m_lock);
         auto it = __reinterpret_cast<iterator>(h);
+        if (it == m_index.end()) return;        // the handle of an empty range
         m_index.erase(it);
     }
 
